@@ -26,7 +26,10 @@ Definition used_here (cfg : config) (w : world) (a : action) (i : iobs) : list (
           let vals := values_of cfg r in
           match q_route r with
           | ROtpLogin => [(U, aget f_password vals)]
-          | RTotpValidate | RSmsValidate =>
+          | RTotpValidate =>
+              if bempty (aget f_recovery_code vals) then [(U, bs "totp:" ++ trim_space (aget f_code vals))]
+              else [(U, aget f_recovery_code vals)]
+          | RSmsValidate =>
               if bempty (aget f_recovery_code vals) then [] else [(U, aget f_recovery_code vals)]
           | RApp _ _ _ _ _ true _ =>
               match alookup k_rm (cook_of w (q_browser r)) with Some c => [(U, c)] | None => [] end
